@@ -38,30 +38,31 @@ fn sval(v: &Value) -> &str {
 }
 
 fn from_cli(rec: &Value) -> Result<BuildOptimiser, String> {
+    // every option that has a value is given: nothing depends on the defaults of the options
     let mut args: Vec<String> = vec!["x".into()];
-    if rec["steps"].as_u64() != Some(100) {
-        args.push(format!("--steps={}", rec["steps"]));
-    }
-    if rec["inner"].as_u64() != Some(1000) || rec["steps"].as_u64().unwrap_or(0) % 2 == 1 {
-        // now and then the default spelt out
-        args.push(format!("--inner-steps={}", rec["inner"]));
-    }
-    if sval(&rec["ktStart"]) != "d01" {
-        args.push(format!("--kt-start={}", num(sval(&rec["ktStart"])).unwrap()));
-    }
+    args.push(format!("--steps={}", rec["steps"]));
+    args.push(format!("--inner-steps={}", rec["inner"]));
+    args.push(format!("--kt-start={}", num(sval(&rec["ktStart"])).unwrap()));
     if let Some(f) = num(sval(&rec["ktFinish"])) {
         args.push(format!("--kt-finish={}", f));
     }
     if let Some(r) = num(sval(&rec["ktRatio"])) {
         args.push(format!("--kt-ratio={}", r));
     }
-    if sval(&rec["maxStep"]) != "d001" {
-        args.push(format!("--max-step-size={}", num(sval(&rec["maxStep"])).unwrap()));
-    }
+    args.push(format!("--max-step-size={}", num(sval(&rec["maxStep"])).unwrap()));
     if let Some(c) = num(sval(&rec["conv"])) {
         args.push(format!("--convergence={}", c));
     }
     BuildOptimiser::from_iter_safe(args).map_err(|e| format!("{}", e))
+}
+
+/// a builder from Default::default() with every field then set through its setter
+fn from_default(rec: &Value) -> BuildOptimiser {
+    let mut b = BuildOptimiser::default();
+    for f in ["steps", "inner", "ktStart", "ktFinish", "ktRatio", "maxStep", "seed", "conv"].iter() {
+        set(&mut b, f, &rec[*f]);
+    }
+    b
 }
 
 fn set(b: &mut BuildOptimiser, f: &str, v: &Value) {
@@ -215,7 +216,7 @@ pub fn builder_scripts(input: &str, out: &str) {
                             }
                         }
                     } else {
-                        BuildOptimiser::default()
+                        from_default(&op["rec"])
                     };
                     bs = vec![b, b];
                 }
